@@ -9,8 +9,10 @@ import (
 	"fmt"
 	"math/big"
 	"math/rand"
+	"strings"
 
 	"github.com/ethereum/go-ethereum/common"
+	"github.com/ethereum/go-ethereum/crypto"
 )
 
 // Program is one transaction-like execution on a prepared state.
@@ -527,7 +529,8 @@ func cw(i int) []byte {
 func Matrix() []*Program {
 	var out []*Program
 	mk := func(name string, body []byte) {
-		p := &Program{Name: name, Contracts: map[common.Address][]byte{CA: Sanitize(body), CB: {0x60, 0x01, 0x60, 0x00, 0x52, 0x60, 0x20, 0x60, 0x00, 0xf3}},
+		// hand-built straight-line code: push data is never executed, so it is left as it is (Sanitize would change operand values)
+		p := &Program{Name: name, Contracts: map[common.Address][]byte{CA: body, CB: {0x60, 0x01, 0x60, 0x00, 0x52, 0x60, 0x20, 0x60, 0x00, 0xf3}},
 			Balances: map[common.Address]*big.Int{EO: big.NewInt(1 << 50), CA: big.NewInt(5)}, Storage: map[common.Address]map[common.Hash]common.Hash{},
 			Entry: "call", To: CA, Input: []byte{1, 2, 3, 4, 5, 6, 7, 8, 9, 10, 11, 12, 13, 14, 15, 16, 17, 18, 19, 20, 21, 22, 23, 24, 25, 26, 27, 28, 29, 30, 31, 32, 33, 34, 35, 36, 37, 38, 39, 40}, Value: big.NewInt(0), Gas: 500_000}
 		out = append(out, p)
@@ -692,7 +695,7 @@ func Matrix() []*Program {
 var helperB = []byte{0x60, 0x01, 0x60, 0x00, 0x52, 0x60, 0x20, 0x60, 0x00, 0xa0, 0x60, 0x20, 0x60, 0x00, 0xf3}
 
 func base(name string, body []byte) *Program {
-	return &Program{Name: name, Contracts: map[common.Address][]byte{CA: Sanitize(body), CB: helperB, CC: {0x60, 0x00, 0x60, 0x00, 0xfd}},
+	return &Program{Name: name, Contracts: map[common.Address][]byte{CA: body, CB: helperB, CC: {0x60, 0x00, 0x60, 0x00, 0xfd}},
 		Balances: map[common.Address]*big.Int{EO: big.NewInt(1 << 50), CA: big.NewInt(1)}, Storage: map[common.Address]map[common.Hash]common.Hash{},
 		Entry: "call", To: CA, Input: []byte{9, 8, 7, 6}, Value: big.NewInt(0), Gas: 400_000}
 }
@@ -813,6 +816,13 @@ func pairPrograms() []*Program {
 	icInvalid := []byte{0xfe}
 	// init code that itself calls the helper (its return data must not leak into the creator)
 	icCalls := (&code{}).pushN(32).pushN(0).pushN(0).pushN(0).pushN(0).pushAddr(CB).op(0x5a, 0xf1, 0x50, 0x00).b
+	// init codes with jumps: A jumps to a JUMPDEST at 4; B to one at 10 (beyond the length of A); C to position 4, which in C is push data
+	icJumpA := []byte{0x60, 0x04, 0x56, 0xfe, 0x5b, 0x00}
+	icJumpB := []byte{0x60, 0x0a, 0x56, 0xfe, 0xfe, 0xfe, 0xfe, 0xfe, 0xfe, 0xfe, 0x5b, 0x60, 0x01, 0x60, 0x00, 0x53, 0x60, 0x01, 0x60, 0x00, 0xf3}
+	icJumpC := []byte{0x60, 0x04, 0x56, 0x60, 0x5b, 0x00}
+	create2Addr := func(ic []byte) common.Address {
+		return crypto.CreateAddress2(CA, common.BigToHash(big.NewInt(5)), crypto.Keccak256(ic))
+	}
 	pre := common.BytesToAddress([]byte{4})
 	pre2 := common.BytesToAddress([]byte{2})
 	fresh := common.HexToAddress("0x00000000000000000000000000000000000f0005")
@@ -839,6 +849,9 @@ func pairPrograms() []*Program {
 		"create-calls":   create(0xf0, icCalls, 0),
 		"create2-ok":     create(0xf5, icOK, 0),
 		"create2-calls":  create(0xf5, icCalls, 0),
+		"create2-revert": create(0xf5, icRevert, 0),
+		// two different init codes with jumps in one transaction: each is analysed on its own (jump destinations are per code)
+		"create-jumpA": create(0xf0, icJumpA, 0),
 		// the same calls, in memory that is already as large as it will get (so no later expansion moves it), followed by a store over
 		// the argument area and the output window: the return-data buffer must not alias memory
 		"call-pre4+clobber": func(c *code) {
@@ -872,20 +885,29 @@ func pairPrograms() []*Program {
 		"mstore-far": func(c *code) { c.pushN(7).pushN(0x900).op(0x52) },
 	}
 	obsv := map[string]act{
-		"rdsize":             func(c *code) { c.op(0x3d).pushN(0x800).op(0x52) },
-		"rdcopy32":           func(c *code) { c.pushN(32).pushN(0).pushN(0x820).op(0x3e) },
-		"rdcopy1":            func(c *code) { c.pushN(1).pushN(0).pushN(0x820).op(0x3e) },
-		"rdcopy4":            func(c *code) { c.pushN(4).pushN(0).pushN(0x820).op(0x3e) },
-		"msize":              func(c *code) { c.op(0x59).pushN(0x800).op(0x52) },
-		"call-v1-nx":         call(0xf1, NX, 1, -1),
-		"call-v1-fresh":      call(0xf1, fresh, 1, -1),
-		"call-v1-pre4":       call(0xf1, pre, 1, -1),
-		"call-v1-pre2":       call(0xf1, pre2, 1, -1),
-		"callcode-v1-fresh":  call(0xf2, fresh, 1, -1),
-		"call-v0-fresh":      call(0xf1, fresh, 0, -1),
-		"balance-fresh":      func(c *code) { c.pushAddr(fresh).op(0x31).pushN(0x800).op(0x52) },
-		"exthash-fresh":      func(c *code) { c.pushAddr(fresh).op(0x3f).pushN(0x800).op(0x52) },
-		"extsize-pre4":       func(c *code) { c.pushAddr(pre).op(0x3b).pushN(0x800).op(0x52) },
+		"rdsize":            func(c *code) { c.op(0x3d).pushN(0x800).op(0x52) },
+		"rdcopy32":          func(c *code) { c.pushN(32).pushN(0).pushN(0x820).op(0x3e) },
+		"rdcopy1":           func(c *code) { c.pushN(1).pushN(0).pushN(0x820).op(0x3e) },
+		"rdcopy4":           func(c *code) { c.pushN(4).pushN(0).pushN(0x820).op(0x3e) },
+		"msize":             func(c *code) { c.op(0x59).pushN(0x800).op(0x52) },
+		"call-v1-nx":        call(0xf1, NX, 1, -1),
+		"call-v1-fresh":     call(0xf1, fresh, 1, -1),
+		"call-v1-pre4":      call(0xf1, pre, 1, -1),
+		"call-v1-pre2":      call(0xf1, pre2, 1, -1),
+		"callcode-v1-fresh": call(0xf2, fresh, 1, -1),
+		"call-v0-fresh":     call(0xf1, fresh, 0, -1),
+		"balance-fresh":     func(c *code) { c.pushAddr(fresh).op(0x31).pushN(0x800).op(0x52) },
+		"exthash-fresh":     func(c *code) { c.pushAddr(fresh).op(0x3f).pushN(0x800).op(0x52) },
+		"extsize-pre4":      func(c *code) { c.pushAddr(pre).op(0x3b).pushN(0x800).op(0x52) },
+		// the address a CREATE by this contract gets (its nonce is 1), and the CREATE2 addresses of the init codes used above:
+		// from Berlin on an address under creation is warm from then on, even when the creation fails
+		"balance-created1":   func(c *code) { c.pushAddr(crypto.CreateAddress(CA, 1)).op(0x31).pushN(0x800).op(0x52) },
+		"extsize-created1":   func(c *code) { c.pushAddr(crypto.CreateAddress(CA, 1)).op(0x3b).pushN(0x800).op(0x52) },
+		"call-v0-created1":   call(0xf1, crypto.CreateAddress(CA, 1), 0, -1),
+		"exthash-c2revert":   func(c *code) { c.pushAddr(create2Addr(icRevert)).op(0x3f).pushN(0x800).op(0x52) },
+		"balance-c2ok":       func(c *code) { c.pushAddr(create2Addr(icOK)).op(0x31).pushN(0x800).op(0x52) },
+		"create-jumpB-after": create(0xf0, icJumpB, 0),
+		"create-jumpC-after": create(0xf0, icJumpC, 0),
 		"sload-1":            func(c *code) { c.pushN(1).op(0x54).pushN(0x800).op(0x52) },
 		"sstore-2":           func(c *code) { c.pushN(2).pushN(1).op(0x55) },
 		"sstore-0":           func(c *code) { c.pushN(0).pushN(1).op(0x55) },
@@ -911,6 +933,9 @@ func pairPrograms() []*Program {
 			c.pushN(0x860).pushN(0).op(0xf3)
 			p := base("pair:"+s1+"+"+o, c.b)
 			p.Storage[CA] = map[common.Hash]common.Hash{common.BigToHash(big.NewInt(1)): common.BigToHash(big.NewInt(1))}
+			if strings.Contains(o, "created1") || strings.Contains(o, "-c2") {
+				p.AllForks = strings.HasPrefix(s1, "create") // warm/cold rules differ by fork
+			}
 			out = append(out, p)
 		}
 	}
@@ -973,6 +998,50 @@ func nestPrograms() []*Program {
 			p.Input = []byte{0}
 			out = append(out, p)
 		}
+	}
+	// SELFDESTRUCT refund cases: the same contract destructs twice; a contract destructs towards one that already has
+	{
+		sd := func(to common.Address) []byte { c := &code{}; c.pushAddr(to); c.op(0xff); return c.b }
+		callTo := func(c *code, a common.Address) {
+			c.pushN(0).pushN(0).pushN(0).pushN(0).pushN(0).pushAddr(a).op(0x5a, 0xf1, 0x50)
+		}
+		c := &code{}
+		callTo(c, CB)
+		callTo(c, CB)
+		c.op(0x00)
+		p := base("nest:selfdestruct-twice", c.b)
+		p.Contracts[CB] = sd(NX)
+		p.AllForks = true
+		out = append(out, p)
+		c = &code{}
+		callTo(c, CC)
+		callTo(c, CB)
+		c.op(0x00)
+		p = base("nest:selfdestruct-to-destructed", c.b)
+		p.Contracts[CC] = sd(NX)
+		p.Contracts[CB] = sd(CC)
+		p.AllForks = true
+		out = append(out, p)
+	}
+	// a store in a re-entrant frame that fails, then a load of the same slot by the outer frame (tracers that cache storage must follow the rollback)
+	for _, end := range []string{"revert", "invalid"} {
+		c := &code{}
+		c.pushN(0).op(0x35).pushN(248).op(0x1c) // first calldata byte
+		c.op(0x61, 0, 0)
+		fix := len(c.b) - 2
+		c.op(0x57)
+		// outer: mem[0] = 1, call self with that byte, load slot 1, store it to memory, return
+		c.pushN(1).pushN(0).op(0x53)
+		c.pushN(0).pushN(0).pushN(1).pushN(0).pushN(0).op(0x30, 0x5a, 0xf1, 0x50)
+		c.pushN(1).op(0x54).pushN(0x20).op(0x52).pushN(0x40).pushN(0).op(0xf3)
+		d := len(c.b)
+		c.b[fix], c.b[fix+1] = byte(d>>8), byte(d)
+		c.op(0x5b).pushN(7).pushN(1).op(0x55).pushN(1).op(0x54, 0x50)
+		c.op(ends[end]...)
+		p := base("nest:reenter-"+end+"-sload", c.b)
+		p.Input = []byte{0}
+		p.Storage[CA] = map[common.Hash]common.Hash{common.BigToHash(big.NewInt(1)): common.BigToHash(big.NewInt(3))}
+		out = append(out, p)
 	}
 	// self-recursion with all the gas: before EIP-150 the 1024-frame depth limit is reached (the 1025th attempt is refused up front),
 	// afterwards the gas runs out around depth 900
